@@ -269,10 +269,12 @@ theorem visibilityFor_unset (nsl : List (String × String)) : visibilityFor none
 
 /-- all rules of a policy must match (AND), an empty rule list is a catch-all, a rule without a
     usable namespace selector never matches -/
-example : sevPolicyMatches [("team", "a")] { vis := .ns, rules := [some [("team", "a")], some [("env", "b")]] } = false ∧
-    sevPolicyMatches [("team", "a")] { vis := .ns, rules := [some [("team", "a")], some []] } = true ∧
+example : sevPolicyMatches [("team", "a")] { vis := .ns, rules := [some { labels := [("team", "a")] }, some { labels := [("env", "b")] }] } = false ∧
+    sevPolicyMatches [("team", "a")] { vis := .ns, rules := [some { labels := [("team", "a")] }, some {}] } = true ∧
     sevPolicyMatches [("team", "a")] { vis := .ns, rules := [] } = true ∧
-    sevPolicyMatches [("team", "a")] { vis := .ns, rules := [none] } = false := by decide
+    sevPolicyMatches [("team", "a")] { vis := .ns, rules := [none] } = false ∧
+    sevPolicyMatches [("team", "a")] { vis := .ns, rules := [some { exprs := [{ key := "env", op := .notIn, values := ["a"] }] }] } = true ∧
+    sevPolicyMatches [("team", "a")] { vis := .ns, rules := [some { exprs := [{ key := "team", op := .isIn, values := ["b"] }] }] } = false := by decide
 
 /-! ### non-vacuity / corners -/
 
